@@ -9,7 +9,8 @@
   Code level (model CC/Model/Port.lean of the repaired `open_circuit_impedance`, fix e030c44):
     C06_impl_early_correct, C06_impl_eq_spec (ideal voltage sources anywhere; hypotheses: distinct
     ids, no self-loop, no pruned unknown, well-posed probe network), the two former failing inputs
-    as positive examples; what remains open is named precisely: `C06_floating_island_counterexample`
+    as positive examples; `C06_isolated_port` (fix aab1640: model answers ∞ ⇒ the Spec has no solution);
+    what remains open is named precisely: `C06_floating_island_counterexample`
     (a floating group of nodes leaves the solved matrix singular although `PortZ` is defined).
 -/
 import CC.Proofs.PortImpl
@@ -365,6 +366,7 @@ theorem C06_impl_eq_spec (N : Net L K) (solve : List (List K) → List K → Opt
           simp [Net.portIsEarly, Net.branchesBetween, hnil, h12] at he
         exact (C06_impl_early_correct solve N pid hp n1 n2 he
           (C06_exists N pid n1 n2 hp hids hsl h12 (zero_mem_probe N pid n1 n2 hz hne) hw)).2
+    | infinite => simp only at h; cases h
     | sys N' keep A e i1 =>
       simp only at h
       obtain ⟨h12, hN', hcheck, hsys⟩ := portPre_sys hpre
@@ -425,6 +427,25 @@ theorem C06_impl_eq_spec (N : Net L K) (solve : List (List K) → List K → Opt
           have := C06_unique N pid hp n1 n2 hw _ hR2
           rw [hport2] at this; exact this
 
+/-- **C06 (isolated port node, fix aab1640).**  When the model of `open_circuit_impedance` answers ∞ — one
+port node's column of the MNA matrix referenced to the other port node is zero: the node hangs on
+zero-admittance branches only, or its admittances cancel exactly — the Spec agrees that the impedance is
+not finite: the unit-current problem of the probe network has NO solution (and the model reports
+`Infinite`, never a number). -/
+theorem C06_isolated_port (N : Net L K) (solve : List (List K) → List K → Option (List K)) (pid : String)
+    (n1 n2 : L) (hp : pid ∉ N.ids) (hids : N.ids.Nodup) (hsl : ∀ b ∈ N.branches, b.n1 ≠ b.n2)
+    (h : N.portPre n1 n2 = .ok .infinite) :
+    N.openCircuitImpedance solve n1 n2 = .error (.other "Infinite") ∧
+      ¬ ∃ R : Report L K, CircuitEqs (probeNet N pid n1 n2 1) R := by
+  refine ⟨by simp [Net.openCircuitImpedance, h], ?_⟩
+  obtain ⟨h12, a, g, hag, hiso⟩ := portPre_infinite h
+  rintro ⟨R, hR⟩
+  have back : ({ ({ N with zero := g } : Net L K) with zero := N.zero } : Net L K) = N := by cases N; rfl
+  rcases hag with ⟨rfl, rfl⟩ | ⟨rfl, rfl⟩
+  · exact isolated_no_solution N pid hp hids hsl a g h12 hiso _ (probe_move N pid a g g R hR)
+  · obtain ⟨S, hS, _⟩ := probe_flip N pid hp g a R hR
+    exact isolated_no_solution N pid hp hids hsl a g (fun e => h12 e.symm) hiso _ (probe_move N pid a g g S hS)
+
 /-- completeness at full strength: whenever the port impedance is defined the function returns
 it.  FALSE on the current code for floating groups of nodes (`C06_floating_island_counterexample`). -/
 def C06_impl_complete_statement : Prop :=
@@ -460,15 +481,36 @@ theorem exN_sys : ({exN with zero := 0} : Net Nat ℚ).portSys 2
   simp only [hl, hk, hs]
   simp [idxOf?, countBefore, unitVec, r3]
 
+theorem exN_iso1 : exN.isolated 2 0 = .ok false := by
+  have hc : ({exN with zero := 0} : Net Nat ℚ).check = .ok () := by
+    simp [Net.check, Net.nodeLabels, Net.ids, exN, sortL, dedupL, List.mergeSort, LabelOrd.le]
+  have hn : ({exN with zero := 0} : Net Nat ℚ).nodes = [1, 2] := by
+    simp [Net.nodes, Net.nodeLabels, exN, sortL, dedupL, List.mergeSort, LabelOrd.le]
+  unfold Net.isolated Net.switchGround
+  simp only [hc, bind, Except.bind, pure, Except.pure, hn, exN_mna]
+  simp [idxOf?, colZero, A0]
+
+theorem exN_iso2 : exN.isolated 0 2 = .ok false := by
+  have hc : ({exN with zero := 2} : Net Nat ℚ).check = .ok () := by
+    simp [Net.check, Net.nodeLabels, Net.ids, exN, sortL, dedupL, List.mergeSort, LabelOrd.le]
+  have hn : ({exN with zero := 2} : Net Nat ℚ).nodes = [0, 1] := by
+    simp [Net.nodes, Net.nodeLabels, exN, sortL, dedupL, List.mergeSort, LabelOrd.le]
+  have hm : ({exN with zero := 2} : Net Nat ℚ).mnaA = [[1/10, 0, -1], [0, 1/10, 1], [-1, 1, 0]] := by
+    simp [Net.mnaA, Net.nodes, Net.nodeLabels, exN, sortL, dedupL, List.mergeSort, LabelOrd.le, Net.Yentry, Net.nonVS,
+      Elem.isIdealVS, Elem.Yfin, Net.vsSorted, Net.vsIds, Net.vs, Net.byIds, Net.get?, Branch.dir]
+  unfold Net.isolated Net.switchGround
+  simp only [hc, bind, Except.bind, pure, Except.pure, hn, hm]
+  simp [idxOf?, colZero]
+
 theorem exN_pre : exN.portPre 2 0 = .ok (.sys {exN with zero := 0} [true, true, true] A0 [0, 1, 0] 1) := by
   have hc : ({exN with zero := 0} : Net Nat ℚ).check = .ok () := by
     simp [Net.check, Net.nodeLabels, Net.ids, exN, sortL, dedupL, List.mergeSort, LabelOrd.le]
-  have hb : (exN.branchesBetween 2 0).any (·.e.isIdealVS) = false := by
+  have hb : ¬ (exN.branchesBetween 2 0).any (·.e.isIdealVS) = true := by
     simp [Net.branchesBetween, exN, Elem.isIdealVS]
   have hz : exN.zero = 0 := rfl
-  unfold Net.portPre
-  simp only [hb, Net.switchGround, bind, Except.bind, pure, Except.pure, hz]
-  simp only [show ((2 : Nat) = 0) = False from by simp, if_false, hc]
+  rw [portPre_unfold (by decide) hb]
+  simp only [hz, show ((2 : Nat) = 0) = False from by simp, if_false, exN_iso1, exN_iso2]
+  simp only [Net.switchGround, hc, bind, Except.bind, pure, Except.pure]
   exact exN_sys
 
 theorem exN_model_value : exN.openCircuitImpedance solve0 2 0 = .ok 5 := by
@@ -614,6 +656,27 @@ theorem exN_keep : ∀ N' keep A e i1, exN.portPre 2 0 = .ok (.sys N' keep A e i
   cases h
   rfl
 
+/-- audit input: `O(1,0)` open circuit, `R(2,0) = 5 Ω` — node `1` is isolated; the repaired function answers ∞ -/
+def exJ : Net Nat ℚ := { branches := [⟨1, 0, "O", "", .thevenin 0 0⟩, ⟨2, 0, "R", "", .norton 5 0⟩], zero := 0 }
+
+theorem exJ_pre : exJ.portPre 1 0 = .ok .infinite := by
+  have hc : ({exJ with zero := 0} : Net Nat ℚ).check = .ok () := by
+    simp [Net.check, Net.nodeLabels, Net.ids, exJ, sortL, dedupL, List.mergeSort, LabelOrd.le]
+  have hn : ({exJ with zero := 0} : Net Nat ℚ).nodes = [1, 2] := by
+    simp [Net.nodes, Net.nodeLabels, exJ, sortL, dedupL, List.mergeSort, LabelOrd.le]
+  have hm : ({exJ with zero := 0} : Net Nat ℚ).mnaA = [[0, 0], [0, 1/5]] := by
+    simp [Net.mnaA, Net.nodes, Net.nodeLabels, exJ, sortL, dedupL, List.mergeSort, LabelOrd.le, Net.Yentry, Net.nonVS,
+      Elem.isIdealVS, Elem.Yfin, Net.vsSorted, Net.vsIds, Net.vs, Net.byIds]
+  have hiso : exJ.isolated 1 0 = .ok true := by
+    unfold Net.isolated Net.switchGround
+    simp only [hc, bind, Except.bind, pure, Except.pure, hn, hm]
+    simp [idxOf?, colZero]
+  have hb : ¬ (exJ.branchesBetween 1 0).any (·.e.isIdealVS) = true := by
+    simp [Net.branchesBetween, exJ, Elem.isIdealVS]
+  have hz : exJ.zero = 0 := rfl
+  rw [portPre_unfold (by decide) hb]
+  simp only [hz, show ((1 : Nat) = 0) = False from by simp, if_false, hiso]
+
 end C06ex
 
 /-! ### non-vacuity: the former failing inputs -/
@@ -627,6 +690,12 @@ example : PortZ C06ex.exN "p" 2 0 5 :=
     C06ex.exN_keep C06ex.exN_wellposed
     (by rw [mem_nodeLabels]; exact Or.inr ⟨⟨1, 0, "Vs", "", .norton 0 10⟩, by simp [C06ex.exN], Or.inr rfl⟩)
     C06ex.exN_model_value
+
+/-- the hypothesis of `C06_isolated_port` is met by the audit input: the model reports ∞ and the Spec has no solution -/
+example : ¬ ∃ R : Report Nat ℚ, CircuitEqs (probeNet C06ex.exJ "p" 1 0 1) R :=
+  (C06_isolated_port C06ex.exJ (fun _ _ => none) "p" 1 0 (by decide) (by decide)
+    (by intro b hb; simp only [C06ex.exJ, List.mem_cons, List.mem_nil_iff, or_false] at hb
+        rcases hb with rfl | rfl <;> decide) C06ex.exJ_pre).2
 
 /-- `PortZ` is inhabited on a network with an ideal source away from the port -/
 example : ∃ z : ℚ, PortZ C06ex.exN "p" 2 0 z := ⟨5, C06ex.exN_spec_value⟩
@@ -669,15 +738,36 @@ theorem exI_sys : ({exI with zero := 0} : Net Nat ℚ).portSys 1
   simp only [hl, hk, hs]
   simp [idxOf?, countBefore, unitVec, r3]
 
+theorem exI_iso1 : exI.isolated 1 0 = .ok false := by
+  have hc : ({exI with zero := 0} : Net Nat ℚ).check = .ok () := by
+    simp [Net.check, Net.nodeLabels, Net.ids, exI, sortL, dedupL, List.mergeSort, LabelOrd.le]
+  have hn : ({exI with zero := 0} : Net Nat ℚ).nodes = [1, 2, 3] := by
+    simp [Net.nodes, Net.nodeLabels, exI, sortL, dedupL, List.mergeSort, LabelOrd.le]
+  unfold Net.isolated Net.switchGround
+  simp only [hc, bind, Except.bind, pure, Except.pure, hn, exI_mna]
+  simp [idxOf?, colZero, AI]
+
+theorem exI_iso2 : exI.isolated 0 1 = .ok false := by
+  have hc : ({exI with zero := 1} : Net Nat ℚ).check = .ok () := by
+    simp [Net.check, Net.nodeLabels, Net.ids, exI, sortL, dedupL, List.mergeSort, LabelOrd.le]
+  have hn : ({exI with zero := 1} : Net Nat ℚ).nodes = [0, 2, 3] := by
+    simp [Net.nodes, Net.nodeLabels, exI, sortL, dedupL, List.mergeSort, LabelOrd.le]
+  have hm : ({exI with zero := 1} : Net Nat ℚ).mnaA = [[1/5, 0, 0], [0, 1, -1], [0, -1, 1]] := by
+    simp [Net.mnaA, Net.nodes, Net.nodeLabels, exI, sortL, dedupL, List.mergeSort, LabelOrd.le, Net.Yentry, Net.nonVS,
+      Elem.isIdealVS, Elem.Yfin, Net.vsSorted, Net.vsIds, Net.vs, Net.byIds]
+  unfold Net.isolated Net.switchGround
+  simp only [hc, bind, Except.bind, pure, Except.pure, hn, hm]
+  simp [idxOf?, colZero]
+
 theorem exI_pre : exI.portPre 1 0 = .ok (.sys {exI with zero := 0} [true, true, true] AI [1, 0, 0] 0) := by
   have hc : ({exI with zero := 0} : Net Nat ℚ).check = .ok () := by
     simp [Net.check, Net.nodeLabels, Net.ids, exI, sortL, dedupL, List.mergeSort, LabelOrd.le]
-  have hb : (exI.branchesBetween 1 0).any (·.e.isIdealVS) = false := by
+  have hb : ¬ (exI.branchesBetween 1 0).any (·.e.isIdealVS) = true := by
     simp [Net.branchesBetween, exI, Elem.isIdealVS]
   have hz : exI.zero = 0 := rfl
-  unfold Net.portPre
-  simp only [hb, Net.switchGround, bind, Except.bind, pure, Except.pure, hz]
-  simp only [show ((1 : Nat) = 0) = False from by simp, if_false, hc]
+  rw [portPre_unfold (by decide) hb]
+  simp only [hz, show ((1 : Nat) = 0) = False from by simp, if_false, exI_iso1, exI_iso2]
+  simp only [Net.switchGround, hc, bind, Except.bind, pure, Except.pure]
   exact exI_sys
 
 def RexI : Report Nat ℚ :=
